@@ -287,6 +287,33 @@ func applyMul(m *mulForge, s Strat, topBits uint) (changed, feasible bool) {
 		decomposeInto(k, w, m.quo)
 		m.recarryInt()
 		return true, true
+	case "rwide":
+		// r + t*p with t = 2^(w-topBits+1): same residue, but the top limb no longer fits BitsPerLimb; k - t keeps the
+		// identity true over the integers. Only a missing range check on the remainder lets this through.
+		r := recompose(m.rem, w)
+		k := recompose(m.quo, w)
+		t := pow2(w - topBits + 1)
+		if k.Cmp(t) < 0 || len(m.rem) == 0 {
+			return false, false
+		}
+		r.Add(r, new(big.Int).Mul(t, m.p))
+		k.Sub(k, t)
+		low := make([]*big.Int, len(m.rem))
+		for i := range low {
+			low[i] = new(big.Int)
+		}
+		mask := new(big.Int).Sub(pow2(w*uint(len(m.rem)-1)), big.NewInt(1))
+		lowPart := new(big.Int).And(r, mask)
+		decomposeInto(lowPart, w, low[:len(low)-1])
+		for i := 0; i < len(m.rem)-1; i++ {
+			m.rem[i].Set(low[i])
+		}
+		m.rem[len(m.rem)-1].Rsh(r, w*uint(len(m.rem)-1))
+		if !decomposeInto(k, w, m.quo) {
+			return false, false
+		}
+		m.recarryInt()
+		return true, true
 	case "wrap", "wrap0", "stuff":
 		r := recompose(m.rem, w)
 		k := recompose(m.quo, w)
@@ -388,6 +415,16 @@ func applyValue(c *hintadv.Call, s Strat, ps *paramSet) (changed, feasible bool)
 		x.Sub(ps.Q, new(big.Int).Mod(x, ps.Q))
 	case "o+p":
 		x.Add(x, ps.Q)
+	case "owide":
+		// same residue, top limb beyond BitsPerLimb: only a missing range check on the hinted value lets this through
+		x.Add(x, new(big.Int).Mul(pow2(w-ps.TopBits+1), ps.Q))
+		top := new(big.Int).Rsh(x, w*uint(len(out)-1))
+		lowPart := new(big.Int).And(x, new(big.Int).Sub(pow2(w*uint(len(out)-1)), big.NewInt(1)))
+		if len(out) > 1 {
+			decomposeInto(lowPart, w, out[:len(out)-1])
+		}
+		out[len(out)-1].Set(top)
+		return true, true
 	case "clearerr":
 		if c.Err == nil {
 			return false, false
